@@ -555,6 +555,28 @@ fn rand_wellformed(rng: &mut Rng, n: usize, rings: usize, comps: usize) -> Vec<G
     h
 }
 
+/// several independent components, each with its own rings (the ring edges of `rand_wellformed` are drawn over all
+/// atoms and so usually merge its components), the atoms then renumbered at random so that the components interleave
+fn rand_components(rng: &mut Rng) -> Vec<GAtom> {
+    let c = rng.range(2, 4);
+    let mut g: Vec<GAtom> = Vec::new();
+    for _ in 0..c {
+        let size = rng.range(1, 9);
+        let rings = match rng.below(4) { 0 => 0, 1 => 1, 2 => 2, _ => rng.below(6) };
+        let part = rand_wellformed(rng, size, rings, 1);
+        let off = g.len();
+        for a in part.into_iter() { g.push(GAtom { kind: a.kind, bonds: a.bonds.into_iter().map(|(k, t)| (k, t + off)).collect() }) }
+    }
+    let n = g.len();
+    let mut perm: Vec<usize> = (0..n).collect();
+    if rng.chance(1, 2) { rng.shuffle(&mut perm) }
+    let mut h: Vec<GAtom> = vec![GAtom { kind: String::new(), bonds: vec![] }; n];
+    for (i, a) in g.into_iter().enumerate() {
+        h[perm[i]] = GAtom { kind: a.kind, bonds: a.bonds.into_iter().map(|(k, t)| (k, perm[t])).collect() };
+    }
+    h
+}
+
 fn mutate_graph(rng: &mut Rng, g: &mut Vec<GAtom>) {
     let n = g.len();
     if n == 0 { return }
@@ -732,11 +754,28 @@ fn graph<W: Write>(_t: &Tables, thorough: bool, rng: &mut Rng, out: &mut W) {
         let size = if i % 100 == 0 { rng.range(50, 300) } else { rng.range(1, 14) };
         let rings = match rng.below(4) { 0 => 0, 1 => 1, 2 => rng.below(4), _ => rng.below(size + 1) };
         let comps = if rng.chance(1, 4) { rng.range(1, 3) } else { 1 };
-        let mut g = rand_wellformed(rng, size, rings, comps);
+        let mut g = if i % 5 == 3 { rand_components(rng) } else { rand_wellformed(rng, size, rings, comps) };
         if rng.chance(1, 3) { mutate_graph(rng, &mut g) }
         if rng.chance(1, 30) { mutate_graph(rng, &mut g); mutate_graph(rng, &mut g) }
         graph_req(out, &g);
     }
+    // a small ring system followed by a larger one and vice versa, as separate components (numbers must restart correctly)
+    for first in [1usize, 2, 3] { for second in [1usize, 2, 3] {
+        // component 1: `first` fused three-membered rings sharing atom 0; component 2: `second` of them
+        let mut g: Vec<GAtom> = Vec::new();
+        for m in [first, second] {
+            let base = g.len();
+            g.push(GAtom { kind: "A1".to_string(), bonds: vec![] });
+            for r in 0..m {
+                let x = g.len();
+                g.push(GAtom { kind: "A1".to_string(), bonds: vec![] });
+                g.push(GAtom { kind: "A1".to_string(), bonds: vec![] });
+                add_edge(&mut g, base, x + 1, 0); add_edge(&mut g, base, x, 0); add_edge(&mut g, x, x + 1, 0);
+                let _ = r;
+            }
+        }
+        graph_req(out, &g);
+    } }
     // ring-rich graphs: many simultaneously open closures (a ladder / complete-ish graph), long runs of sequential rings then fused
     for m in [10usize, 40, 98, 99, 100, 101, 120] {
         // hub-less comb: atoms 0..m in a chain, plus atoms m+1..2m+1 each bonded to i and to the last atom => many open closures
